@@ -575,7 +575,7 @@ package keeper
 //@ define SLASHFRAC = get(prm).SlashFraction
 //@ define BASE = get(prm).BaseDenom
 //@ func Keeper.Slash(ctx, requestID)
-//@   property C07, C13, C16
+//@   property C07, C13, C16, C08
 //@   returns err
 //@   requires types.paramsOK(get(prm)) && pricingsWF
 //@   requires has(prm) && !isnil(SLASHFRAC) && raw(SLASHFRAC) >= 0 && raw(SLASHFRAC) <= DEC_ONE && ufb("denom_valid", BASE)
